@@ -354,13 +354,13 @@ static void upipe_even_sub_free(struct upipe *upipe)
     upipe_even_sub_clean_sub(upipe);
     upipe_even_sub_clean_urefcount(upipe);
 
-    if (last) {
+    if (last)
         upipe_even->dead = true;
-        if (!upipe_even->in_loop)
-            upipe_even_process(upipe_even_to_upipe(upipe_even), NULL);
-        else
-            upipe_even->restart = true;
-    }
+    /* the other inputs may have been waiting for this one */
+    if (!upipe_even->in_loop)
+        upipe_even_process(upipe_even_to_upipe(upipe_even), NULL);
+    else
+        upipe_even->restart = true;
 
     upipe_even_sub_free_void(upipe);
 }
